@@ -205,8 +205,27 @@ def run_disp_impl(case):
     counts = [0] * len(case["beh"])
     total = [0]
 
+    def deliver(i, k):
+        p = protos[i] if encs is None else encs[i]
+        if k == "init":
+            p.initialize()
+        elif k == "timer":
+            p.handle_timer("t")
+        elif k == "telem":
+            p.handle_telemetry(Telemetry((0.0, 0.0, 0.0)))
+        elif k == "packet":
+            p.handle_packet("m")
+        elif k == "finish":
+            p.finish()
+
     def reop(o):
         kind_, i, k, h = o
+        if kind_ == "ndisp":
+            # the running handler delivers a callback itself: a dispatch nested in the current one
+            log.append("enter %d %s" % (i, k))
+            deliver(i, k)
+            log.append("exit")
+            return
         if i not in wrappers:
             log.append("nowrapper")
             return
@@ -265,18 +284,7 @@ def run_disp_impl(case):
             elif op[0] in ("reg", "unreg"):
                 reop(op)
             elif op[0] == "disp":
-                i, k = op[1], op[2]
-                p = protos[i] if encs is None else encs[i]
-                if k == "init":
-                    p.initialize()
-                elif k == "timer":
-                    p.handle_timer("t")
-                elif k == "telem":
-                    p.handle_telemetry(Telemetry((0.0, 0.0, 0.0)))
-                elif k == "packet":
-                    p.handle_packet("m")
-                elif k == "finish":
-                    p.finish()
+                deliver(op[1], op[2])
         except Runaway:
             log.append("runaway")
         except Exception as e:  # noqa: BLE001
@@ -292,7 +300,10 @@ def disp_to_text(sid, case):
         for res, ops in table:
             p.append("%s %d" % (res, len(ops)))
             for o in ops:
-                p.append("%s %d %s %d" % (o[0], o[1], o[2], o[3]))
+                if o[0] == "ndisp":
+                    p.append("ndisp %d %s" % (o[1], o[2]))
+                else:
+                    p.append("%s %d %s %d" % (o[0], o[1], o[2], o[3]))
     p.append("OPS %d" % len(case["ops"]))
     for op in case["ops"]:
         if op[0] == "create":
